@@ -104,6 +104,8 @@ func (g *gen) fieldArith(pk string, m *big.Int) {
 		g.add("%sraw.frommont@%s %s", pk, two[r.intn(2)], xl)
 		g.add("%sraw.halve %s", pk, xl)
 		g.add("%sraw.butterfly@%s %s %s", pk, two[r.intn(2)], xl, yl)
+		g.add("%sraw.butterflyab@api%s %s", pk, be, xl)
+		g.add("%sraw.butterflyab@generic %s", pk, yl)
 		g.add("%sraw.mulby3@%s %s", pk, two[r.intn(2)], xl)
 		g.add("%sraw.mulby5@%s %s", pk, two[r.intn(2)], yl)
 		g.add("%sraw.mulby13@%s %s", pk, two[r.intn(2)], xl)
@@ -1217,8 +1219,10 @@ func (g *gen) vary(samples int) {
 	var kinds []string
 	for _, op := range g.ops {
 		f := strings.Fields(op)
-		if len(f) < 3 || strings.Contains(f[0], "@xy") || strings.Contains(f[0], "@zxy") {
-			continue // too few arguments, or a pattern that REQUIRES two arguments to be equal
+		if len(f) < 3 || strings.Contains(f[0], "@xy") || strings.Contains(f[0], "@zxy") ||
+			strings.Contains(f[0], ".scan") || strings.Contains(f[0], "setinterface") {
+			continue // too few arguments; a pattern that REQUIRES two arguments to be equal; or an op whose
+			// argument types depend on another argument (dynamic-type tag + payload)
 		}
 		k := f[0] + "/" + strconv.Itoa(len(f))
 		if _, ok := byKind[k]; !ok {
